@@ -627,6 +627,7 @@ fn keepalive_mix(r: &mut Rng) -> Profile {
 fn dead_handle(r: &mut Rng) -> Profile {
     let mut p = Profile::default();
     p.name = "dead-handle";
+    p.inbound_near_rx = r.chance(1, 3);
     p.w_pub = [6, 6, 6];
     p.w_sub = 6;
     p.w_unsub = 6;
@@ -762,11 +763,22 @@ pub fn all() -> Vec<Box<dyn Check>> {
         COMMON_ASSUME.to_vec(),
         vec![("inbound-heavy", 5000, 500_000, inbound_heavy as ProfileFn), ("inbound-hostile", 1000, 100_000, inbound_hostile), ("general", 1000, 100_000, general)],
         m::c04::check, 80, 0, (200, 2000), vec!["duplicates_suppressed", "acks_owed_with_full_arena", "pubrel_unknown", "deliveries_with_properties"]),
-    gen_check!("C05", "exploration",
-        "sequences of up to 8 connections with arbitrary session-present answers, rejected/garbled/EOF/silent/cancelled handshakes in between and arbitrary in-flight state at each loss; the monitor judges CONNECT flags and client id, connect event, invalidation, absence of stale transmissions and complete in-order replay. Non-trivial iff a resumed connection began with in-flight state or at least two connections were established.",
-        COMMON_ASSUME.to_vec(),
-        vec![("session-mix", 4000, 400_000, session_mix as ProfileFn), ("general", 2000, 200_000, general)],
-        m::c05::check, 70, 0, (200, 2000), vec!["resumes_with_inflight", "handles_checked_after_fresh_session", "replays_verified"]),
+    Box::new(SweepCheck {
+        id: "C05",
+        level: "exploration",
+        rule: "sequences of up to 8 connections with arbitrary session-present answers, rejected / garbled / EOF / silent handshakes, CONNACKs with reason 0 whose properties must be refused, and arbitrary in-flight state at each loss; (sweep) base programs re-executed with every operation - connect() included - dropped at each of its await indices and with a transport fault at every I/O call index; the monitor judges CONNECT flags and client id, connect event, invalidation of earlier handles, absence of stale transmissions (requests, PUBRELs and owed acks of a discarded session) and complete in-order replay before anything new. Non-trivial iff a resumed connection began with in-flight state or at least two connections were established.",
+        assumptions: COMMON_ASSUME.to_vec(),
+        workloads: vec![("handshake-sweep", 100, 10_000, session_mix as ProfileFn), ("session-mix", 4000, 400_000, session_mix), ("general", 2000, 200_000, general)],
+        monitor: m::c05::check,
+        max_steps: 40,
+        epilogue_polls: 0,
+        round_trip: false,
+        cap: (50, 400),
+        mode: SweepMode::Both,
+        plain_from: 1,
+        min_nt: (200, 2000),
+        required: vec!["resumes_with_inflight", "handles_checked_after_fresh_session", "replays_verified", "injection_points"],
+    }),
     gen_check!("C06", "exploration",
         "programs with Receive Maximum in {1,2,3,7,8,9,16,65535,absent}, mixed QoS 1/2, held/reordered acks, cancellations and resumed reconnects; conservation monitor in the broker's view (PUBLISH completed on the wire minus acks the broker has sent, plus exchanges entering the connection in the release phase). Non-trivial iff a publish was refused NotReady or a resumed connection began with publishes in flight.",
         COMMON_ASSUME.to_vec(),
